@@ -107,8 +107,38 @@ def run(F, rep, tier):
         entry = min(regn)
         first, second = fcalls[0], fcalls[-1]
         cond = not tb.postdominates(second.bb, first.bb)
+        # the condition must be a test of the imaginary part alone (im compared with a constant): a test that also looks at re
+        # (z.is_zero()) hashes im for 1+0i, which equals 1
+        badg = None
         if cond:
-            rep.ok('R9.1', '(iii) Complex arm', 'im hashed conditionally')
+            between = {x for x in tb.reachable_from(first.bb) if x in regn and second.bb in tb.reachable_from(x) and x != second.bb}
+            for x in sorted(between):
+                t_ = tb.term(x)
+                if t_[0] != 'switch' or t_[1][0] not in ('c', 'm') or len(tb.succ[x]) < 2:
+                    continue
+                if all(second.bb in tb.reachable_from(y, avoid={x}) for y in tb.succ[x]):
+                    continue      # does not decide whether im is hashed
+                ds = tb.defs().get(t_[1][1][0], [])
+                okg = False
+                if len(ds) == 1 and ds[0][2] == 'a' and ds[0][3][2][0] == 'bin' and ds[0][3][2][1] in ('Ne', 'Eq', 'Lt', 'Gt', 'Le', 'Ge'):
+                    ops_ = []
+                    for o in ds[0][3][2][2:4]:
+                        for _ in range(4):      # look through copies of the field into temporaries
+                            if o[0] in ('c', 'm') and len(o[1]) == 1:
+                                d2 = tb.defs().get(o[1][0], [])
+                                if len(d2) == 1 and d2[0][2] == 'a' and d2[0][3][2][0] == 'use':
+                                    o = d2[0][3][2][1]
+                                    continue
+                            break
+                        ops_.append(o)
+                    okg = all(o[0] == 'k' or (o[0] in ('c', 'm') and any(isinstance(pr, str) and pr.endswith(':im') for pr in o[1][1:])) for o in ops_) \
+                        and any(o[0] in ('c', 'm') for o in ops_)
+                if not okg:
+                    badg = x
+        if cond and badg is not None:
+            rep.viol('R9.1', 'total_hash|Complex|im-guard-not-im-only', 'whether the imaginary part is hashed does not depend on im alone (the guard is not a comparison of z.im with a constant): 1+0i and 1 are equal keys with different hashes', tb.loc(badg))
+        elif cond:
+            rep.ok('R9.1', '(iii) Complex arm', 'im hashed conditionally, under a test of im alone')
         else:
             rep.viol('R9.1', 'total_hash|Complex|im-unconditional', 'the imaginary part is always hashed: 1+0i and 1 are equal keys with different hashes', second.loc())
     else:
